@@ -6,14 +6,14 @@
  "mode": "harness", "post_macro": "POST_LOC",
  "replace_calls": {"nextchar": "nextchar_abs", "ghost_ungetc": "ungetc_abs", "stringlit": "stub_stringlit",
                    "charconst": "stub_charconst", "ident": "stub_ident", "number": "stub_number", "comment": "comment_spec"},
- "kind": "bounded",
+ "kind": "bounded", "unwind": 24, "unwind_failure": "violation",
  "bound": "files of at most 8 logical characters (all byte values), each preceded by 0 or 1 backslash-newline pair: at most 2 separators (blank, // comment, block comment, in any order; 3 in the thorough tier) in front of the token; both backward gotos of scankind's skip loop unwound 3 (4) times",
- "unwindset": ["scankind.0:3", "scankind.1:3"],
+ "unwindset": ["scankind.0:3", "scankind.1:3", "gs_build.0:50", "gs_build.1:50", "gs_build.2:50"],
  "cflags": ["-DG_IN_MAX=40", "-DVERIF_OWN_XMALLOC"],
  "stubs": ["base.c", "ghost_stdio.c"],
  "cbmc_flags": ["--drop-unused-functions"],
  "timeout": 300,
- "tiers": {"thorough": {"cflags": ["-DG_IN_MAX=40", "-DVERIF_OWN_XMALLOC", "-DLOC_SEPS=3"], "unwindset": ["scankind.0:4", "scankind.1:4"], "timeout": 900}},
+ "tiers": {"thorough": {"cflags": ["-DG_IN_MAX=40", "-DVERIF_OWN_XMALLOC", "-DLOC_SEPS=3"], "unwindset": ["scankind.0:4", "scankind.1:4", "gs_build.0:50", "gs_build.1:50", "gs_build.2:50"], "timeout": 900}},
  "expects": ["assertion_verif"],
  "assumes": ["nextchar/ungetc are taken by their logical stand-ins nextchar_abs/ungetc_abs (SCAN.nextchar + SCAN.nextchar.abs prove the real nextchar refines the former)",
              "comment() is taken by its stand-in comment_spec (SCAN.comment proves the real one refines it)",
